@@ -75,13 +75,26 @@ def node_part(tier, seed, res, lean, pid, kinds, ops=None):
                 f'{pid.lower()}-e2e-correspondence',
                 f'a field of a real pipeline and the model\'s own compilation of its container (Bag.compileGraph + VM) differ: {str(e2e_bad[0]["diff"])[:300]}',
                 {'suite': 'S-NODE/e2e', 'theorems': [t for t in lean['theorems'] if '.node_' in t], **e2e_bad[0]}, found_input=False))
+    if ops is None or 'factory' in ops:
+        # S-FACTORY: the container GraphFactory / ReversibleContainer build from a class body against CM.Model.Factory
+        from .. import suite_factory
+        fouts = pmap(suite_factory.run_shard, [(seed * 811 + 13 * i + 2, 20 if tier == 'quick' else 120) for i in range(shards)])
+        fstats = merge_stats([o[0] for o in fouts])
+        fbad = [b for o in fouts for b in o[1]]
+        fstats['disagreements'] = len(fbad)
+        stats['factory'] = fstats
+        if fbad:
+            res.violations.append(Violation(
+                f'{pid.lower()}-factory-correspondence',
+                f'the container the real GraphFactory / ReversibleContainer build for a layer and CM.Model.Factory differ: {str({k: v for k, v in fbad[0].items() if k != "desc"})[:300]}',
+                {'suite': 'S-FACTORY', 'theorems': [t for t in lean['theorems'] if 'factory' in t], **fbad[0]}, found_input=False))
     stats['theorem_contradicted'] = len(contradicted)
     stats['disagreements'] = len(bad)
     return stats
 
 
 def replay(obj, kind):
-    if obj.get('suite') == 'S-NODE':
+    if obj.get('suite') in ('S-NODE', 'S-FACTORY', 'S-NODE/e2e'):
         return True, 'recorded calls are regenerated by re-running the check with the same VERIF_SEED'
     diffs, _ = suite_bag.compare(obj['stack'])
     if diffs:
